@@ -50,4 +50,5 @@ def run(ctx, rep):
     rep.run(RI.rule_class_file_named_after_the_class, ctx, rep, "T19")
     rep.run(RI.rule_preamble_by_evaluation, ctx, rep, "T20")
     rep.run(RI.rule_registry_keeps_every_class, ctx, rep, "T21")
+    rep.run(RI.rule_one_file_per_function_across_blocks, ctx, rep, "T22")
     rep.run(RF.rule_locals_defined, ctx, rep, "U1", packages=("gtwrap/matlab_wrapper",), min_functions=3)
